@@ -437,3 +437,33 @@ Proof.
   rewrite E. change (ann_started (set_announcing l w)) with (ann_started w).
   destruct (send_stop && ann_started w); reflexivity.
 Qed.
+
+(* ---- ServiceDiscover.send_find_services / _service_found (C13) ---- *)
+Lemma flat_map_map_fst {A B C} (f : A -> list C) (l : list (A * B)) :
+  flat_map (fun p => f (fst p)) l = flat_map f (map fst l).
+Proof. induction l as [|p l IH]; cbn [flat_map map]; [reflexivity|]. rewrite IH. reflexivity. Qed.
+Theorem service_found_is_the_translated_source f w :
+  service_found f w
+  = gen_service_found (fun s k => match k with KService s' => matches_service s s' | _ => false end) f (store_keys (found w)).
+Proof. reflexivity. Qed.
+Theorem find_entries_is_the_translated_source w :
+  find_entries w = gen_find_entries (fun s => service_found s w) create_find_entry (t_find_ttl (cfg w)) (map fst (watched w)).
+Proof.
+  unfold find_entries, gen_find_entries. rewrite <- flat_map_map_fst. apply flat_map_ext. intros p.
+  destruct (service_found (fst p) w); reflexivity.
+Qed.
+Theorem find_next_is_the_translated_source t i w :
+  find_next t i w
+  = if gen_find_has_round i (t_rep_max (cfg w)) then task_sleep t TFind (gen_find_delay i (t_rep_base (cfg w))) 2 i w
+    else finish_task t w.
+Proof. unfold find_next, gen_find_has_round, gen_find_delay, pow2. rewrite N.shiftl_1_l. reflexivity. Qed.
+(* the two places of the coroutine after a sleep: the first round (pc 1) and a repetition round (pc >= 2) *)
+Theorem find_round_is_the_translated_source t w tk :
+  get_task t w = Some tk -> tk_done tk = false -> tk_must_cancel tk = false -> tk_kind tk = TFind -> 1 <= tk_pc tk ->
+  task_step t w
+  = gen_find_round (find_entries w) (fun es => send_sd es None)
+      (find_next t (if tk_pc tk =? 1 then 0 else tk_i tk + 1)) (finish_task t) w.
+Proof.
+  intros Hg Hd Hc Hk Hp. unfold task_step, gen_find_round. rewrite Hg, Hd, Hc, Hk.
+  destruct (tk_pc tk) as [|p] eqn:E; [exfalso; apply Hp; reflexivity|]. destruct p; cbn [N.eqb Pos.eqb]; destruct (find_entries w); reflexivity.
+Qed.
